@@ -477,6 +477,13 @@ func (b *builder) method(m *sp.Method) {
 		}
 		if g := m.GRPC; g != nil {
 			GRPC(func() {
+				if len(g.Message) > 0 {
+					Message(func() {
+						for _, p := range g.Message {
+							Attribute(p.Attr)
+						}
+					})
+				}
 				if len(g.Metadata) > 0 {
 					Metadata(func() {
 						for _, p := range g.Metadata {
